@@ -66,7 +66,7 @@ ATOMS = {
 }
 
 # name, kind, atoms, cfgs, L (text bytes after the prefix, for start = 0), prefix, invariants, note
-ALLINV = "ResumeEqFresh Stable OffsSane Emit"
+ALLINV = "ResumeEqFresh Stable OffsSane Emit EmitTwo EmitByte"
 CFGS = [
     ("struct",   "nameaddr", "AtomsStruct",  "CfgsNA18",  5, "PfxNone"),
     ("allh",     "nameaddr", "AtomsAllH",    "CfgsNA",    5, "PfxNone"),
@@ -88,7 +88,7 @@ CFGS = [
     ("qlong",    "nameaddr", "AtomsQLong",   "CfgsNA8",   5, "PfxQLong"),
     ("q2",       "nameaddr", "AtomsQ2",      "CfgsNA8",   7, "PfxQ"),
     ("qbig",     "nameaddr", "AtomsQBig",    "CfgsNA8",   5, "PfxQBig"),
-    ("exp",      "nameaddr", "AtomsExp",     "CfgsNA8",   6, "PfxExp"),
+    ("exp",      "nameaddr", "AtomsExp",     "CfgsNA8",   5, "PfxExp"),
     ("exp32",    "nameaddr", "AtomsExpBig",  "CfgsNA8",   5, "PfxExp32"),
     ("exp64",    "nameaddr", "AtomsExpBig",  "CfgsNA8",   5, "PfxExp64"),
     ("pexp64",   "nameaddr", "AtomsExpBig",  "CfgsNA1",   5, "PfxPExp64"),
@@ -134,7 +134,7 @@ def main():
         s = ""
         if note: s += "".join("\\* " + ln + "\n" for ln in note.split("\n"))
         s += ("SPECIFICATION SpecP\nVIEW view\nCONSTANTS\n  OffsMod = 65536\n  Kind = \"%s\"\n  Atoms <- %s\n"
-              "  Prefix <- %s\n  MaxLen = %d\n  Cfgs <- %s\n  Junk = 34\n  EmitOn = TRUE\nINVARIANTS %s\n"
+              "  Prefix <- %s\n  MaxLen = %d\n  MaxAtoms = 99\n  Cfgs <- %s\n  Junk = 34\n  EmitOn = TRUE\nINVARIANTS %s\n"
               "CHECK_DEADLOCK FALSE\n") % (kind, atoms, pfx, maxlen, cfgs, inv)
         open(os.path.join(OUT, "MC_NameAddr_%s.cfg" % name), "w").write(s)
         lens = [len(a) for a in ATOMS[atoms]]
